@@ -230,6 +230,16 @@ theorem hidden_slots_depend :
         (.map (.cons (.str "a") (.int .i32 1) .nil))).map erase) := by
   refine ⟨by decide +kernel, by decide +kernel, by decide +kernel, by decide +kernel⟩
 
+/-- the schema of the examples of Props/C11Arrays.lean is `Safe` (the physical theorems of this file still carry C01's `Safe`:
+`push_phys`, Lemmas/C11PhysPush.lean, is a recursion on the STRICT state invariant `WFB`, which is false without `Safe`) -/
+theorem exSafe : ∀ root0, newRoot exFields = .ok root0 → Safe root0 := by
+  intro root0 h0
+  rw [show newRoot exFields = .ok (.struct "$" 0 none
+    (.cons (.leaf "$.a" (.int .i32) none []) ⟨"a", false, []⟩
+      (.cons (.bytes "$.b" .utf8 (some []) [0] []) ⟨"b", true, []⟩ .nil)) [none, none] 0 [false, false]) from by decide] at h0
+  cases h0
+  simp [Safe, SafeL]
+
 /-! ### non-vacuity -/
 
 /-- `C11_presentations_physical` applies to the two presentations of `C11Arrays.exRows1/2` (structs with an extra field
